@@ -25,10 +25,11 @@ func init() {
 	const bp = "confd/pkg/backends/calico/bgp_processor.go"
 	const cp = "felix/config/config_params.go"
 	const rm = "felix/dataplane/linux/route_mgr.go"
+	const cl = "confd/pkg/backends/calico/client.go"
 	register(&Property{
 		ID:        "C28",
 		Title:     "Exactly one component programs each IP pool's cluster routes",
-		Technique: "static analysis: finite evaluation (partial evaluator over go/ast + go/types) of both components' decision functions over the whole setting x pool-mode space, plus SSA guard/dominance analysis of the wiring sites, of the route manager's retract-before-file discipline and of the revision tag of confd's config cache",
+		Technique: "static analysis: finite evaluation (partial evaluator over go/ast + go/types) of both components' decision functions over the whole setting x pool-mode space, plus SSA guard/dominance analysis of the wiring sites, of the route manager's retract-before-file discipline and of the revision tag of confd's config cache, deletion-specialised CFG reachability of the cached BGPConfiguration's store",
 		DesignRef: "DESIGN.md §3 C28",
 		Explanation: "Decides the property on the finite configuration space by evaluating the source of the decision functions symbolically, never running them: " +
 			"(tables) Config.ProgramIPIPClusterRoutes/ProgramNoEncapClusterRoutes over every value Felix's resolver can yield for ProgramClusterRoutes (the oneof options of the struct tag; the tag default for absent and, the parameter not being die-on-fail, for unrecognised) and clusterRoutePolicyFromBGPConfig over {nil config, nil field, the four values, one symbolic unrecognised value} equal the documented meaning of each value and the documented defaults, and both sides recognise exactly the same four spellings; " +
@@ -38,11 +39,14 @@ func init() {
 			"(wiring) Felix hands the two accessors unswapped to the dataplane config, creates noEncap managers, feeds the IPIP route manager and reports NoEncapNeeded only under the matching flag, and confd adds tunl0 to the iBGP tunnel-route reject only when BIRD does not own IPIP; the calculation graph always builds the L3 route resolver when Felix owns IPIP routes of an IPIP-enabled cluster or NoEncapNeeded holds; Felix claims BIRD's routes through the IPIP device (OwnBIRDIPIPRoutes) only under ProgramIPIPClusterRoutes; every processIPPool call gets the policy computed by clusterRoutePolicyFromBGPConfig from a (non-constant) BGPConfiguration; " +
 			"(retract) run-time change of a pool's class: the route manager shared by the IPIP, VXLAN and no-encap managers handles a RouteUpdate/RouteRemove by first forgetting what it held for the destination - the retraction deletes from every map the handler files routes in, dominates every insert, and is reached under conditions that read nothing of the message but Dst (so not the pool type of the NEW route); " +
 			"(revision) the revision stored with confd's cached BIRD config is a GetCurrentRevision() reading that dominates every other use of the client in the computing function, so a result computed from older inputs is never cached under a newer revision. " +
+			"(cache) the BGPConfiguration that clusterRoutePolicyFromBGPConfig receives is followed back (fields, getters, parameters) to the client field that caches it; every syncer callback that reads KVPair.Value and can store into that field must still be able to reach the store when the update is a deletion - the CFG is specialised to Value == nil / failed type assertions of the value / UpdateType == UpdateTypeKVDeleted, nil-ness is propagated into callee parameters - so 'the resource is absent' is seen by BIRD's side as the default and not as the last value; " +
+			"(value) Felix's half of 'unrecognised = default' inside Config.resolve (C27's value family armed under C28): the value written after a failed, non-fatal Parse is Metadata.Default. " +
 			"Anything outside the evaluator's fragment is reported undecided (exit 2), never as a pass.",
-		NotDecided: "That Felix's calculation graph and route managers, given the flags, program exactly the pools of the class (L3RouteResolver, noEncapManager, ipipManager internals, beyond the retract-first discipline of routeManager.OnUpdate); that the calculation graph re-emits a RouteUpdate for every destination of a pool whose mode changed; atomicity of confd's cache reads against concurrent syncer updates beyond the order of the revision sample; the BIRD template that renders the filter statements; 'none' as a raw Felix value (zero value \"\" = Disabled semantics); inconsistent (unsupported) pairings, which the product does not reject.",
+		NotDecided: "That the value stored into the cached BGPConfiguration on the deletion path is nil or an empty resource (only that the store is reachable); other confd state derived from the BGPConfiguration (v1 key/value pairs, mesh password, service advertisement); staleness of the IP pool entries of the generic key/value cache; that Felix's calculation graph and route managers, given the flags, program exactly the pools of the class (L3RouteResolver, noEncapManager, ipipManager internals, beyond the retract-first discipline of routeManager.OnUpdate); that the calculation graph re-emits a RouteUpdate for every destination of a pool whose mode changed; atomicity of confd's cache reads against concurrent syncer updates beyond the order of the revision sample; the BIRD template that renders the filter statements; 'none' as a raw Felix value (zero value \"\" = Disabled semantics); inconsistent (unsupported) pairings, which the product does not reject.",
 		Assumptions: []string{
 			"go/types + go/ast model of the current source; the evaluator's fragment semantics (if/switch/return, == != && || !, constants, struct literals, inlined calls)",
-			"C27: Felix resolves an absent or invalid non-fatal value to the tag default and a valid oneof value to the canonical option spelling (OneofListParam.Parse)",
+			"C27: Felix resolves an absent value to the tag default and a valid oneof value to the canonical option spelling (OneofListParam.Parse); that an invalid non-fatal value gets the tag default is decided here (C28.value) up to C27's precedence rules",
+			"a deletion reaches confd's syncer callback as an api.Update with KVPair.Value == nil and UpdateType == UpdateTypeKVDeleted (syncer API contract)",
 			"the meaning table of DESIGN.md (design/cluster-route-programming) §1: Disabled=-/-, EnabledIPIPOnly=ipip, EnabledNoEncapOnly=noEncap, Enabled=both; defaults Felix EnabledIPIPOnly, BGP EnabledNoEncapOnly",
 			"emitFilterStatementForIPPools' third argument is the BIRD action (accept: BIRD installs the route; reject: it does not)",
 			"logrus calls have no effect",
@@ -121,6 +125,26 @@ func init() {
 			{Name: "revision re-sampled after the BGPConfiguration was read", File: bp,
 				Old: "\tpc := c.getBGPProcessorContext()\n", New: "\tpc := c.getBGPProcessorContext()\n\tcurrentRevision = c.GetCurrentRevision()\n",
 				Expect: "C28.revision/client.GetBirdBGPConfig/sampled-before-inputs"},
+			{Name: "BGPConfiguration cache only refreshed when the update's value type-asserts (a deletion carries nil)", File: cl,
+				Old:    "\t\t\tv3res, _ := u.Value.(*apiv3.BGPConfiguration)\n\t\t\tc.updateBGPConfigCache(v3key.Name, v3res, &needServiceAdvertisementUpdates, &needUpdatePeersV1, &needUpdatePeersReasons)\n",
+				New:    "\t\t\tif v3res, ok := u.Value.(*apiv3.BGPConfiguration); ok {\n\t\t\t\tc.updateBGPConfigCache(v3key.Name, v3res, &needServiceAdvertisementUpdates, &needUpdatePeersV1, &needUpdatePeersReasons)\n\t\t\t}\n",
+				Expect: "C28.cache/client.onUpdates/globalBGPConfig/reset-on-delete"},
+			{Name: "cached BGPConfiguration kept when the resource is deleted (writer skips nil)", File: cl,
+				Old:    "\t\tc.globalBGPConfig = v3res\n",
+				New:    "\t\tif v3res != nil {\n\t\t\tc.globalBGPConfig = v3res\n\t\t}\n",
+				Expect: "C28.cache/client.onUpdates/globalBGPConfig/reset-on-delete"},
+			{Name: "BGPConfiguration deletions filtered out by update type before the cache update", File: cl,
+				Old:    "ok && v3key.Kind == apiv3.KindBGPConfiguration {",
+				New:    "ok && v3key.Kind == apiv3.KindBGPConfiguration && u.UpdateType != api.UpdateTypeKVDeleted {",
+				Expect: "C28.cache/client.onUpdates/globalBGPConfig/reset-on-delete"},
+			{Name: "Felix skips an unparsable value instead of substituting the default (a lower-priority source then wins)", File: cp,
+				Old:    "\t\t\t\t\t\tvalue = metadata.Default\n\t\t\t\t\t\terr = nil\n",
+				New:    "\t\t\t\t\t\terr = nil\n\t\t\t\t\t\tcontinue valueLoop\n",
+				Expect: "C28.value/resolve/default"},
+			{Name: "Felix replaces an unparsable value by the zero value (programClusterRoutes \"\" = Disabled) instead of the default", File: cp,
+				Old:    "\t\t\t\t\t\tvalue = metadata.Default\n",
+				New:    "\t\t\t\t\t\tvalue = metadata.ZeroValue\n",
+				Expect: "C28.value/resolve/default"},
 		},
 	})
 }
@@ -176,6 +200,8 @@ func runC28(c *Ctx) {
 	c.Rule("C28.wiring", "E-GUARD/E-CONST", "the flags reach the components unswapped and gate exactly the route-programming sites", 16)
 	c.Rule("C28.retract", "E-GUARD/E-ORDER", "the shared route manager (IPIP, VXLAN, no-encap) first forgets whatever it held for the destination of a RouteUpdate/RouteRemove: the retraction covers every map the handler fills, precedes every insert, and whether it happens depends on the destination only - never on the pool type or any other attribute of the new route", 7)
 	c.Rule("C28.revision", "E-ORDER", "the revision stored with a cached BIRD config is a GetCurrentRevision() reading that dominates every other use of the client in the computing function (sampled before the inputs were read)", 1)
+	c.Rule("C28.cache", "E-GUARD/E-PAIR", "the client field BIRD's policy is computed from (the cached BGPConfiguration, found by following clusterRoutePolicyFromBGPConfig's argument back to the client) is refreshed on the deletion path too: in every syncer callback that can store into it, the store stays reachable when KVPair.Value is nil / UpdateType is deleted (branches on value==nil, on type assertions of the value and on the update type resolved, nil propagated into callees)", 1)
+	c.Rule("C28.value", "E-FLOW", "Felix's half of 'an unrecognised value is the default': in Config.resolve the value written for a parameter whose Parse failed (and that is not die-on-fail) is Metadata.Default, written in the same iteration that records the source (c27Value, shared with C27)", 4)
 
 	p := c.Load(c27Pkg, c28ConfdPkg, "felix/calc", c28DrvPkg, c28DpPkg, c28OwnPkg)
 	m := &c28Model{c: c, p: p, ev: newC28Eval(p)}
@@ -190,6 +216,13 @@ func runC28(c *Ctx) {
 	c28Wiring(c, p)
 	c28Retract(c, p)
 	c28Revision(c, p)
+	c28CacheRule(c, p, m.fromBGP, m.processIPPool)
+	// Shared discipline implemented in C27's file, armed here under C28's id: the
+	// "unrecognised" rows of Felix's table above are computed from the struct tag on
+	// the premise that Config.resolve substitutes the tag default for a value that
+	// fails to parse.  If resolve skipped the value instead, a lower-priority source
+	// would win and Felix would no longer default the way confd (single source) does.
+	c.Alias("C27.value", "C28.value", func() { c27Value(c, c27Build(c, p)) })
 }
 
 func (m *c28Model) fn(pkg, name string) *types.Func {
